@@ -406,7 +406,9 @@ class Ctx:
                 for st in b['s']:
                     if st[0] == '=' and st[2][0] == 'bin' and norm_op(st[2][1]) == op:
                         if has_all(self.S.operand(g, st[2][2]), a_pats) and has_all(self.S.operand(g, st[2][3]), b_pats):
-                            if not expr_ops(self.prog, g, st[2][2]) - {('V', 0)} and not {o for o in expr_ops(self.prog, g, st[2][3]) if o[0] == 'OP'}:
+                            alla = {p.split(':')[1] for p in a_pats if p.startswith('OP:')}
+                            allb = {p.split(':')[1] for p in b_pats if p.startswith('OP:')}
+                            if not {o[1] for o in expr_ops(self.prog, g, st[2][2]) if o[0] == 'OP'} - alla and not {o[1] for o in expr_ops(self.prog, g, st[2][3]) if o[0] == 'OP'} - allb:
                                 return True
             for c in conds(g, self.S):
                 t = match_rel(c, op.lower(), a_pats, b_pats)
